@@ -122,6 +122,17 @@ BIG = "1" + "0" * 330  # an integer beyond the range of float
 LIT_FORMS = {
     "(+ %s -" + BIG + ")": 1, "(.bit-length -" + BIG + ")": 0, "(** -" + BIG + " 2)": 0, "(- " + BIG + " %s)": 1, "[-1e400 1e400 (- 1e400) %s]": 1,
     "(.is-integer -1e400)": 0, "(** -1e400 %s)": 1,
+    # names that are Python keywords, in every place a name can stand
+    "(do (import os.path :as def) (. def sep))": 0, "(do (import os [path :as class]) (. class sep))": 0, "(do (import os.def) 1)": 0,
+    "(do (import lambda.x) 1)": 0, "(do (import os.def [sep]) 1)": 0, "(do (import os.def :as q) 1)": 0, "(do (import .def [sep]) 1)": 0,
+    "(do (defclass K [] (setv def %s)) (. (K) def))": 1, "(do (defclass K [] (setv for %s)) (.__class__ (. (K) for)))": 1,
+    "(do (defclass K [] (setv None %s)) (. (K) None))": 1, "(do (defclass K [] (setv True %s)) (. (K) True))": 1,
+    "(do (setv if %s) (del if) 1)": 1, "(do (defn f [] (global while) (setv while %s)) (f) while)": 1,
+    "(do (defn f [#* in] in) (f %s))": 1, "(do (for [not [%s]] (setv q not)) q)": 1, "(lfor is [%s] is)": 1, "(do (with [as (open \"/dev/null\")] as.closed))": 0,
+    "(try (raise (ValueError %s)) (except [try ValueError] (str try)))": 1,
+    # match patterns over literals
+    "(match %s -1 \"a\" -2.5 \"b\" -0.0 \"c\" 1+2j \"d\" -1-2j \"e\" _ \"f\")": 1, "(match %s Inf 1 -Inf 2 _ 3)": 1, "(match %s NaN 1 _ 3)": 1,
+    "(match [%s %s] [a #* b] [a b])": 2, "(match {\"k\" %s} {\"k\" v #** r} [v r])": 1, "(match %s (| -1 2j) 1 _ 0)": 1,
     "((fn [#^ int #* xs] (len xs)) %s %s)": 2, "((fn [a #^ dict #** kw] [a (sorted (.items kw))]) %s :k %s)": 2, "((fn [#^ int a] a) %s)": 1,
     "((fn [a * #^ int b] [a b]) %s :b %s)": 2, "((fn [#^ int a / b] [a b]) %s %s)": 2, "((fn [#^ int #* xs #^ int #** kw] [xs (sorted kw)]) %s :z %s)": 2,
     "(** %s %s)": 2, "(** %s %s %s)": 3, "(- %s)": 1, "(- (- %s))": 1, "(+ %s %s)": 2, "(* %s %s)": 2, "(/ %s %s)": 2, "(// %s %s)": 2, "(% %s %s)": 2,
@@ -435,4 +446,22 @@ def shard(ctx):
     ctx.hyp(foreign, one_foreign, ctx.per_shard(1400, 150000), "foreign")
 
 
-MATCHERS = {}
+def nan_literal_pattern(case, bucket, detail):
+    """Root cause 'a NaN literal used as a match pattern has no spelling in Python': the printed text fails to parse, and it
+    parses once every such pattern (ast.unparse writes NaN as (1e309-1e309)) is replaced by a dotted-name value pattern."""
+    if not bucket.startswith("hy2py-output-not-python") or not isinstance(detail, dict):
+        return False
+    try:
+        text = hy2py_text(detail["source"])
+    except Exception:  # noqa
+        return False
+    if "(1e309-1e309)" not in text:
+        return False
+    try:
+        compile(text.replace("(1e309-1e309)", "float.NAN"), "<hy2py>", "exec")
+    except SyntaxError:
+        return False
+    return True
+
+
+MATCHERS = {"nan_literal_pattern": nan_literal_pattern}
